@@ -90,6 +90,18 @@ class FieldsDict(Abstract):
     def p_contains(self, it, item):
         return it.concrete_key(item) in self.obj.fields
 
+    def p_getattr(self, it, name):
+        if name == "setdefault":
+            def setdefault(k, default=None):
+                k = it.concrete_key(k)
+                if k not in self.obj.fields:
+                    it.write_field(self.obj, k, default)
+                return self.obj.fields[k]
+            return setdefault
+        if name == "get":
+            return lambda k, default=None: self.obj.fields.get(it.concrete_key(k), default)
+        raise Unsupported(f"__dict__.{name}")
+
 
 class Path:
     def __init__(self, pc, kind, value, st):
@@ -1450,7 +1462,7 @@ class BuiltinBound(Abstract):
     def p_call(self, it, args, kwargs):
         if self.name == "__init__":
             return None
-        raise Unsupported(f"builtin base method {self.name}")
+        return it.call_symmethod(SymMethod(self.selfv, self.name), args, kwargs)
 
 
 class Env:
